@@ -56,4 +56,6 @@ def run():
         fails += reference_enc.run()
     except ImportError:
         pass
+    from selftest import reference_gpg
+    fails += reference_gpg.run()
     return fails
